@@ -214,9 +214,28 @@ package flows
 
 // parsing a raw field value builds a new Value; it reads the environment and location hierarchy and writes nothing
 // (assumed frame: the computed call graph through the location resolver interface is too coarse)
-//@ func FieldValues.Parse
-//@   trusted
+// ---- C03: field values. A contact's field map holds, per field key, nil or a FieldValue with a non-nil Value that has a text
+//@ pred fieldsOK(f FieldValues) bool := forall k string {f[k]} :: f[k] != nil ==> (f[k].Value != nil && f[k].Value.Text != nil)
+//@ pred sameValue(a *Value, b *Value) bool := (a == nil && b == nil) || (a != nil && b != nil && a.Text.native == b.Text.native && sameInstant(a.Datetime, b.Datetime) && sameNumber(a.Number, b.Number) && a.State == b.State && a.District == b.District && a.Ward == b.Ward)
+
+//@ func FieldValues.Get
+//@   requires field != nil
 //@   assigns nothing
+//@   ensures [value] (f[field.Key()] != nil ==> result == f[field.Key()].Value) && (f[field.Key()] == nil ==> result == nil)
+
+//@ func FieldValues.Set
+//@   requires f != nil && field != nil && (value != nil ==> value.Text != nil)
+//@   assigns map[string]*FieldValue
+//@   ensures [cleared] (value == nil || value.Text.native == "") ==> f[field.Key()] == nil
+//@   ensures [stored] (value != nil && value.Text.native != "") ==> (f[field.Key()] != nil && fresh(f[field.Key()]) && f[field.Key()].Value == value)
+//@   ensures [others] forall k string {f[k]} :: k != field.Key() ==> f[k] == old(f[k])
+
+//@ func FieldValues.Parse
+//@   assigns nothing
+//@   frame_trusted
+//@   havocs ToXNumber, ToXDateTimeWithTimeFill, IsPossibleLocationPath, getFirstLocationValue, Level, Path, Parent
+//@   ensures [nil_iff_empty] result == nil <==> rawValue == ""
+//@   ensures [fresh_text] result != nil ==> (fresh(result) && result.Text != nil && fresh(result.Text) && result.Text.native == rawValue)
 
 // ---- C06 / C03: what any modifier may write, and the representation invariant of the contact's group list it keeps
 //@ interface Modifier.Apply
